@@ -13,6 +13,8 @@ CONSTANTS
   PStates = {"created", "dropped"}
   Concrete <- NamesClash
   Now = 100
+  Skews = {"behind"}
+  ClampLocal = FALSE
   FixStaleDb = TRUE
   LiveDbGuard = TRUE
   SafeKeys = FALSE
